@@ -14,7 +14,8 @@ func parseArraiStringFragment(s string, validEscapes string, indent string) stri
 	var sb strings.Builder
 
 	number := func(i, size, base int) int {
-		n, err := strconv.ParseUint(s[i:i+size], base, size*base/4)
+		// 32 bits hold every escape: three octal digits alone need 9.
+		n, err := strconv.ParseUint(s[i:i+size], base, 32)
 		if err != nil {
 			panic(err)
 		}
@@ -62,8 +63,9 @@ func parseArraiStringFragment(s string, validEscapes string, indent string) stri
 			case 'i':
 				sb.WriteString(indent)
 			default:
-				if strings.ContainsRune(validEscapes, rune(c)) {
-					sb.WriteByte(c)
+				if strings.ContainsRune(validEscapes, rune(s[i])) {
+					sb.WriteByte(s[i])
+					continue
 				}
 				panic(fmt.Errorf("unrecognized \\-escape: %q", s[i]))
 			}
